@@ -1070,6 +1070,174 @@ def part_update(ctx, res, N, use_model=False, max_perms=4):
         guard(res, 'update', dict(part='update', seed=s), _body)
 
 
+# =========================================================================== part C3: what setup() establishes per phase
+SHAPES = ['sphere', 'needle', 'plate', 'cubic']
+RGRID = np.geomspace(3e-10, 2e-8, 9)
+_TMPL = {}
+
+
+class StubKWNTherm:
+    """thermodynamics for setup(): every answer is an arbitrary function of the precipitate phase's OWN constants
+    (driving force, nucleus composition, curvature factors, impingement) - the per-phase backend"""
+    numElements = 3
+
+    def __init__(self, consts):
+        self.c = consts
+
+    def clearCache(self):
+        pass
+
+    def getDrivingForce(self, x, T, precPhase=None, removeCache=False, **k):
+        c = self.c[precPhase]
+        return np.array(c['dg']), np.array(c['xb'])
+
+    def impingementFactor(self, x, T, precPhase=None, removeCache=False, searchDir=None):
+        return self.c[precPhase]['beta']
+
+    def getGrowthAndInterfacialComposition(self, x, T, dG, R, gExtra, precPhase=None, removeCache=False, searchDir=None):
+        from kawin.thermo.MultiTherm import _growthRateOutputFromCurvature, CurvatureOutput
+        c = self.c[precPhase]
+        if c['dg'] < 0:
+            return None
+        cur = CurvatureOutput(dc=np.array(c['dc']), mc=c['mc'], gba=np.array(c['gba']), beta=c['beta'],
+                              c_eq_alpha=np.array(c['cea']), c_eq_beta=np.array(c['ceb']))
+        return _growthRateOutputFromCurvature(np.atleast_1d(x), dG, R, gExtra, cur)
+
+
+def gen_setup_case(r):
+    P = r.choice([2, 2, 3])
+    phases = []
+    for i in range(P):
+        shape = r.choice(SHAPES)
+        if shape == 'sphere':
+            ark, site = 'const', r.choice(SITES)
+        else:
+            ark, site = r.choice(['const', 'func', 'calc', 'calc']), r.choice(SITES[:2])
+        phases.append(dict(
+            name='Q%d' % i, shape=shape, ar_kind=ark, ar=r.uniform(1.3, 4.0), ar_slope=r.uniform(0.05, 0.6), site=site,
+            gamma=r.uniform(0.08, 0.4), vmBeta=r.choice([1e-5, 1.2e-5, 8e-6]), bins=r.choice([6, 9, 12]),
+            cMin=r.choice([1e-10, 2e-10]), cMax=r.choice([5e-9, 1e-8]),
+            eig=[r.uniform(0.005, 0.04), r.uniform(0.005, 0.04), r.uniform(0.001, 0.01)], real_search=False,
+            ar_tab=(r.uniform(1.0, 1.3), r.uniform(0.3, 3.0)),          # stands for eqAR_bySearch: 1 + a + b*R/cMax
+            dg=r.choice([-800.0, r.uniform(800, 6000), r.uniform(800, 6000), r.uniform(800, 6000)]),
+            xb=[r.uniform(0.1, 0.4), r.uniform(0.1, 0.4)], beta=10 ** r.uniform(-18, -14),
+            dc=[r.uniform(-1e-5, 1e-5), r.uniform(-1e-5, 1e-5)], mc=10 ** r.uniform(-21, -19),
+            gba=[[r.uniform(0.1, 1), r.uniform(-0.5, 0.5)], [r.uniform(-0.5, 0.5), r.uniform(0.1, 1)]],
+            cea=[r.uniform(0.001, 0.01), r.uniform(0.001, 0.01)], ceb=[r.uniform(0.1, 0.4), r.uniform(0.1, 0.4)]))
+    if not any(p['ar_kind'] == 'calc' for p in phases):
+        q = r.choice(phases); q['shape'] = r.choice(SHAPES[1:]); q['ar_kind'] = 'calc'; q['site'] = r.choice(SITES[:2])
+    return dict(phases=phases, T=r.uniform(400, 800), x0=[r.uniform(0.003, 0.01), r.uniform(0.003, 0.01)], vmAlpha=r.choice([1e-5, 7.1e-6]),
+                gbE=r.uniform(0.1, 0.3), grain=r.choice([10, 100]), disl=10 ** r.uniform(12, 15), bulkN0=10 ** r.uniform(26, 29), part='setup')
+
+
+def run_setup(case, order):
+    """REAL PrecipitateModel.setup() (base setup, _setupAspectRatio, tables, first nucleation / growth evaluation) on the
+    phases listed in `order`; returns the per-phase state and the per-phase functions on a radius grid, by phase NAME"""
+    import copy
+    from kawin.precipitation import PrecipitateModel, PrecipitateParameters, MatrixParameters, TemperatureParameters
+    if 'pp' not in _TMPL:
+        _TMPL['pp'] = PrecipitateParameters('template')
+    phs = [case['phases'][i] for i in order]
+    pps = []
+    at('configure PrecipitateParameters')
+    for p in phs:
+        pp = copy.deepcopy(_TMPL['pp'])                 # a fresh parameter object per model (construction costs 15 ms)
+        pp.name = pp.phase = p['name']
+        pp.volume.setVolume(p['vmBeta'], 'VM', 4)
+        pp.gamma = p['gamma']
+        if p['ar_kind'] == 'func':
+            pp.shapeFactor.setPrecipitateShape(p['shape'], (lambda R, a=p['ar'], b=p['ar_slope']: a + b * np.asarray(R) / 1e-9))
+        else:
+            pp.shapeFactor.setPrecipitateShape(p['shape'], 1 if p['shape'] == 'sphere' else p['ar'])
+        pp.nucleation.setNucleationType(p['site'])
+        if p['ar_kind'] == 'calc':
+            pp.strainEnergy.setElasticConstants(108e9, 61.3e9, 28.5e9)
+            pp.strainEnergy.setEigenstrain(p['eig'])
+            pp.calculateAspectRatio = True
+            if not p['real_search']:
+                a, b = p['ar_tab']; cmax = p['cMax']
+                pp.strainEnergy.eqAR_bySearch = (lambda Rsph, gamma, shp, a=a, b=b, cmax=cmax: a + b * np.asarray(Rsph) / cmax)
+        pps.append(pp)
+    mp = MatrixParameters(['X', 'Y'])
+    mp.volume.setVolume(case['vmAlpha'], 'VM', 4)
+    mp.initComposition = list(case['x0'])
+    mp.GBenergy = case['gbE']
+    th = StubKWNTherm({p['name']: p for p in case['phases']})
+    m = PrecipitateModel(thermodynamics=th, matrixParameters=mp, precipitateParameters=pps, temperatureParameters=TemperatureParameters(case['T']))
+    m.setNucleationDensity(grainSize=case['grain'], dislocationDensity=case['disl'], bulkN0=case['bulkN0'])
+    for p in phs:
+        m.setPBMParameters(cMin=p['cMin'], cMax=p['cMax'], bins=p['bins'], minBins=max(2, p['bins'] // 2), maxBins=2 * p['bins'], phase=p['name'])
+    m.finalTime = 1e4
+    at('setup'); m.setup()
+    st = {}
+    for j, p in enumerate(phs):
+        pp = m.precipitateParameters[j]; sf = pp.shapeFactor; nb = pp.nucleation
+        at('per-phase functions of ' + p['name'])
+        d = dict(
+            eqAspectRatio=np.array(m.eqAspectRatio[j], dtype=float), bounds=np.array(m.PBM[j].PSDbounds, dtype=float), PSD=np.array(m.PBM[j].PSD, dtype=float),
+            aspectRatio=np.array(sf.aspectRatio(RGRID), dtype=float) * np.ones(len(RGRID)),
+            eqRadiusFactor=np.array(sf.eqRadiusFactor(RGRID), dtype=float) * np.ones(len(RGRID)),
+            kineticFactor=np.array(sf.kineticFactor(RGRID), dtype=float) * np.ones(len(RGRID)),
+            thermoFactor=np.array(sf.thermoFactor(RGRID), dtype=float) * np.ones(len(RGRID)),
+            particleGibbs=np.array(m.particleGibbs(RGRID, p['name']), dtype=float) * np.ones(len(RGRID)),
+            strainEnergy=np.array(pp.computeStrainEnergyFromR(RGRID), dtype=float) * np.ones(len(RGRID)),
+            gbEnergy=np.array([nb.gbEnergy, nb.areaFactor, nb.volumeFactor], dtype=float),
+            row0=np.array([getattr(m.pData, q)[0, j] for q in ('drivingForce', 'Rcrit', 'Gcrit', 'impingement', 'nucRate', 'Rnuc')], dtype=float),
+            xEq=np.concatenate([m.pData.xEqAlpha[0, j], m.pData.xEqBeta[0, j]]),
+            growth=np.array(m.growth[j], dtype=float), PSDX=np.array(np.shape(m.PSDXalpha[j]), dtype=float),
+            indices=np.array([m.RdrivingForceIndex[j], m.dissolutionIndex[j]], dtype=float))
+        st[p['name']] = d
+    at('getDt after setup')
+    return st, float(m.getDt(None))
+
+
+def setup_diff(a, b):
+    for f in a:
+        if a[f].shape != b[f].shape or rel(a[f], b[f]) > 1e-12:
+            return f, a[f].tolist()[:6], b[f].tolist()[:6]
+    return None
+
+
+def part_setup(ctx, res, N, use_model=False, real_search=0):
+    vlib.use_repo()
+    for it in range(N):
+        s = ctx.rng.getrandbits(48)
+        def _body():
+            case = gen_setup_case(random.Random(s)); case['seed'] = s
+            if it < real_search:                       # a few cases with the real elastic search (0.2 s per table): small grids
+                for p in case['phases']:
+                    if p['ar_kind'] == 'calc':
+                        p['real_search'] = True; p['bins'] = 3
+            P = len(case['phases'])
+            listings = list(dict.fromkeys([tuple(range(P)), tuple(reversed(range(P))), tuple(list(range(1, P)) + [0])]))
+            with warnings.catch_warnings():
+                warnings.simplefilter('ignore')
+                outs = [(o, run_setup(case, o)) for o in listings]
+                singles = {case['phases'][i]['name']: run_setup(case, (i,)) for i in range(P)}
+            base, base_dt = outs[0][1]
+            ncalc = sum(1 for p in case['phases'] if p['ar_kind'] == 'calc')
+            res.case(('setup', P, s), ncalc >= 1 and P >= 2)
+            res.count('C3:phases=%d' % P); res.count('C3:phases-with-computed-aspect-ratio', ncalc)
+            for p in case['phases']:
+                res.count('C3:shape-' + p['shape']); res.count('C3:ar-' + p['ar_kind'])
+            if any(p['real_search'] for p in case['phases']):
+                res.count('C3:real-eqAR_bySearch')
+            desc = dict(part='setup', seed=s, phases=['%s:%s:%s:%s' % (p['name'], p['shape'], p['ar_kind'], p['site']) for p in case['phases']])
+            for o, (st_, dt) in outs[1:]:
+                d2 = dict(desc, listing=[case['phases'][i]['name'] for i in o])
+                for nm in base:
+                    df = setup_diff(base[nm], st_[nm])
+                    if df:
+                        res.violate('phase-order:setup:' + df[0], 'setup(): %s of phase %s depends on the order in which the phases are listed' % (df[0], nm), d2, df[2], df[1])
+                if not close(dt, base_dt, 1e-12):
+                    res.violate('phase-order:getDt-after-setup', 'getDt after setup() depends on the order in which the phases are listed', d2, dt, base_dt)
+            for nm, (st1, _) in singles.items():
+                df = setup_diff(st1[nm], base[nm])
+                if df:
+                    res.violate('phase-order:setup-vs-single-phase:' + df[0], 'setup(): %s of phase %s in the multi-phase model differs from the same phase set up alone' % (df[0], nm), desc, df[2], df[1])
+        guard(res, 'setup', dict(part='setup', seed=s), _body)
+
+
 # =========================================================================== part D: monitored, real pycalphad
 _TH = {}
 
@@ -1463,6 +1631,7 @@ def corr(ctx, oracle_only=False, scale=1):
     t1 = time.time()
     part_steps(ctx, res, ctx.n(800, 25000) * scale, use_model)
     part_update(ctx, res, ctx.n(300, 8000) * scale)
+    part_setup(ctx, res, ctx.n(60, 1500) * scale, real_search=ctx.n(2, 20))
     t2 = time.time()
     part_real_thermo(ctx, res, ctx.n(6, 150))
     t3 = time.time()
@@ -1507,7 +1676,7 @@ def replay(ctx, entry):
         def getrandbits(s, k): return s.v
     ctx.driver_ok = False
     loops = {'argsort': part_argsort, 'wrappers': part_wrappers, 'steps': part_steps, 'diffusion-stub': part_diffusion_stub,
-             'update': part_update, 'real-thermo': part_real_thermo}
+             'update': part_update, 'setup': part_setup, 'real-thermo': part_real_thermo}
     try:
         if part in loops and 'seed' in c:
             saved = ctx.rng; ctx.rng = OneSeed(int(c['seed']))
